@@ -125,4 +125,38 @@ PROPS = {
                      "layer_miri_obs_close_ok_with_pending_data"],
         assumptions=COMMON_ASSUMPTIONS,
     ),
+    "C11": dict(
+        level="exploration",
+        technique="runtime monitoring: generated combinator trees (type-erased dynamic + fully typed static family) executed on the real actix-service combinators and compared with a reference interpreter (result, ordered call/mapper event log, factory init events, first init error); Miri on the pin-projection code",
+        level_text="Combinator expression trees up to depth 3 over scripted leaf services/factories are built with the real combinators, driven by a strict manual executor and compared with a 200-line recursive reference interpreter: response/error, the ordered log of leaf calls and mapper invocations with their arguments, each inner factory invoked once with the supplied config, first init error.",
+        level_note="Trusted: the reference interpreter (eval/finit in harness/vh-local/src/c11.rs), the scripted leaves. Dynamic trees pass through boxed::service at every node (the static family covers un-erased types). Bounds: exhaustive depth<=1 (+3-leaf and_then chains) x 36 leaf scripts, random depth<=3.",
+        design_ref="§5 C11",
+        engine="vh-local",
+        layers={
+            "quick": [L("native", "vh-local", shards=8),
+                      L("miri", "vh-local", "miri", tier="miri", shards=8, timeout=600)],
+            "thorough": [L("native", "vh-local", tier="thorough", shards=16),
+                         L("miri", "vh-local", "miri", tier="miri", shards=16, timeout=1500, extra={"random": 1200, "random_f": 1200})],
+        },
+        obligations=["obs_calls", "obs_call_ok", "obs_call_err", "obs_events_compared", "obs_init_ok", "obs_init_err", "obs_init_same_round_errors",
+                     "obs_static_typed_trees", "layer_miri_obs_calls", "layer_miri_obs_init_ok"],
+        assumptions=COMMON_ASSUMPTIONS + ["TransformExt::map_init_err is unreachable through the public API for ordinary transforms (blanket impl only for T: Transform<T, Req>) and is not driven"],
+    ),
+    "C12": dict(
+        level="exploration",
+        technique="runtime monitoring: leaf-side poll-discipline monitors (polled-after-completion, waker identity per poll, readiness conjunction, lost-wake-up via strict executor) on generated combinator trees; Miri",
+        level_text="The same generated trees as C11, observed from the leaves: every poll of every scripted leaf records the identity of the waker it was given; a strict executor re-polls only after the waker of the previous poll was woken. Rules: Ready(Ok) only if every leaf reported ready in that poll, inner readiness errors surface (mapped), Pending implies every still-pending inner was polled with the current waker, no inner future is polled after completion, Pending only while an inner is pending, and waking the inner wakers wakes the task.",
+        level_note="Trusted: scripted leaves and the strict executor in harness/vh-core/src/exec.rs. Strictness note: Ready(Ok) is required to rest on a poll of every inner service in the same call (all combinators in scope forward readiness on every call).",
+        design_ref="§5 C12",
+        engine="vh-local",
+        layers={
+            "quick": [L("native", "vh-local", shards=8),
+                      L("miri", "vh-local", "miri", tier="miri", shards=8, timeout=600)],
+            "thorough": [L("native", "vh-local", tier="thorough", shards=16),
+                         L("miri", "vh-local", "miri", tier="miri", shards=16, timeout=1500, extra={"random": 1200, "random_f": 1200})],
+        },
+        obligations=["obs_ready_pending_rounds", "obs_ready_errors_checked", "obs_ready_ok", "obs_call_pending_polls", "obs_waker_identity_checks",
+                     "obs_wake_progress_checks", "obs_init_pending_polls", "obs_leaf_future_polls", "layer_miri_obs_waker_identity_checks"],
+        assumptions=COMMON_ASSUMPTIONS,
+    ),
 }
